@@ -258,8 +258,8 @@ func c17Kind(c, s bool) (handler, call string) {
 	return "NewUnaryHandler(", ".CallUnary(ctx, req)"
 }
 
-// HarnessC17Constructors: generateServerConstructor and generateClientMethod
-// executed for a service (package absent or present, symbolic names) with two
+// HarnessC17Constructors: generateServerConstructor, generateClientImplementation
+// and generateClientMethod executed for a service (package absent or present, symbolic names) with two
 // methods of symbolic streaming kinds: each method is mounted exactly once,
 // at its canonical path, with the constructor of its kind, and labelled with
 // the same path; the mount prefix returned is "/<fully-qualified service>/";
@@ -322,6 +322,25 @@ func HarnessC17Constructors() {
 		}
 	}
 	check(returns == 1, "the constructor returns once")
+	// the client constructor builds one typed client per method at the same path
+	g3 := c17NewFile()
+	c17Printed = nil
+	generateClientImplementation(g3, service, names)
+	clines := c17Text(g3)
+	for _, m := range ms {
+		path := "/" + fq + "/" + m.name
+		field := unexport(m.method.GoName) + ": "
+		built := 0
+		for i, l := range clines {
+			t := strings.TrimSpace(l)
+			if strings.HasPrefix(t, field) && strings.Contains(t, "NewClient[") {
+				built++
+				check(i+2 < len(clines) && strings.TrimSpace(clines[i+1]) == "httpClient,", "the method's client is built on the caller's HTTP client")
+				check(i+2 < len(clines) && strings.TrimSpace(clines[i+2]) == `baseURL + "`+path+`",`, "the method's client is constructed at the same canonical path the handler is mounted at")
+			}
+		}
+		check(built == 1, "the client constructor builds exactly one client per method")
+	}
 	for _, m := range ms {
 		g2 := c17NewFile()
 		c17Printed = nil
